@@ -66,7 +66,10 @@ type state struct {
 func (prop) Run(t *testing.T, s *sim.Sim, res *runner.Result) {
 	st := &state{s: s, beta: map[string]bool{}, revN: map[string]int{}, gone: map[string]bool{}, evAt: map[int]int{}}
 	xrworld.Run(s, res, xrworld.Hooks{
-		Opts:     func(tp *sim.Tape) xrworld.Opts { lag := tp.Next(2) == 1; return xrworld.Opts{FnFaults: true, LagComposed: lag, LagManual: lag && tp.Next(2) == 1} },
+		Opts: func(tp *sim.Tape) xrworld.Opts {
+			lag := tp.Next(2) == 1
+			return xrworld.Opts{FnFaults: true, LagComposed: lag, LagManual: lag && tp.Next(2) == 1}
+		},
 		Params:   xrworld.DrawParams{ForcePipeline: true, Fatal: true, Requirements: true, Conditions: true, Contract: true},
 		Faults:   []sim.Outcome{sim.ErrBefore, sim.ErrAfter, sim.Conflict, sim.CrashBefore, sim.CrashAfter, sim.Stale},
 		MaxChaos: 200,
@@ -744,6 +747,15 @@ func (st *state) judgeObserved(tk *sim.Task, mine []*simapi.LogEntry, firstSeq i
 		if canon(ospec[f]) != canon(xspec[f]) {
 			st.violate(tk, "observed-xr-differs-from-xr-read", "the observed composite has spec.%s=%s but the XR this reconcile read has %s", f, canon(ospec[f]), canon(xspec[f]))
 			return
+		}
+	}
+	// reach: the cache missed an existing composed resource and the fallback read failed
+	for i, e := range mine {
+		if e.Seq >= firstSeq {
+			break
+		}
+		if e.Read && e.Verb == "get" && composedKind(e.Key) && isNotFound(e.Err) && i+1 < len(mine) && mine[i+1].Key == e.Key && mine[i+1].Injected != "" {
+			st.s.Probe("observer-fallback-read-failed-yet-pipeline-ran")
 		}
 	}
 	// composed resources: the last successful get per object before the first call
